@@ -4,6 +4,7 @@ import (
 	"bytes"
 	"crypto/sha256"
 	"fmt"
+	"github.com/nspcc-dev/neo-go/pkg/core/interop/interopnames"
 	"sort"
 
 	"github.com/nspcc-dev/neo-go/pkg/core/native"
@@ -372,6 +373,25 @@ func (p *producer) buildTx(o Op, extraAttrs []transaction.Attribute) (tx *transa
 			emit.AppCallNoArgs(w.BinWriter, tok, "transfer", callflag.All)
 			script = w.Bytes()
 			desc += " data=pointer"
+		}
+		if o.Y%8 == 5 && o.X != 0 {
+			// after the transfer the script asks for the notifications of the execution so far and tries to overwrite the
+			// amount in the token contract's Transfer event: the execution log must keep saying what happened (whether the
+			// attempt faults the transaction or is ignored)
+			w := nio.NewBufBinWriter()
+			w.WriteBytes(script)
+			emit.Opcodes(w.BinWriter, opcode.DROP)
+			if o.N%2 == 0 {
+				emit.Opcodes(w.BinWriter, opcode.PUSHNULL)
+			} else {
+				emit.Bytes(w.BinWriter, tok.BytesBE())
+			}
+			emit.Syscall(w.BinWriter, interopnames.SystemRuntimeGetNotifications)
+			emit.Opcodes(w.BinWriter, opcode.PUSH0, opcode.PICKITEM, opcode.PUSH2, opcode.PICKITEM, opcode.PUSH2)
+			emit.Int(w.BinWriter, 777)
+			emit.Opcodes(w.BinWriter, opcode.SETITEM)
+			script = w.Bytes()
+			desc += " then overwrite the event's amount"
 		}
 	case OpVote:
 		var to any
